@@ -106,6 +106,44 @@ def r06_b(prog: Program, chk: Check) -> None:
     chk.ob("R06.b", "signature::Signature.check_call_with_bound_args::evaluator-errors-reported", ok, site, "errors produced by a type evaluator must be shown and flagged")
 
 
+def r06_cd(prog: Program, chk: Check) -> None:
+    chk.rule("R06.c", "every bound collected for a type variable reaches the solver: the pre-pass accumulates all bounds maps in one list that is unified (never merged by dict update)", floor=2)
+    cc = prog.func("signature", "Signature.check_call_with_bound_args")
+    rb = calls_in(cc, "resolve_bounds_map")
+    if len(rb) != 1:
+        raise AnchorError("check_call_with_bound_args: resolve_bounds_map call not found")
+    a0 = rb[0].args[0] if rb[0].args else None
+    acc = None
+    ok = isinstance(a0, ast.Call) and last_attr(a0) == "unify_bounds_maps" and len(a0.args) == 1 and isinstance(a0.args[0], ast.Name)
+    if ok:
+        acc = a0.args[0].id  # type: ignore[union-attr]
+    chk.ob("R06.c", "signature::Signature.check_call_with_bound_args::solver-input-is-unified-list", ok, prog.site("signature", rb[0]), f"the solver is fed `{norm(a0)[:60] if a0 is not None else None}`; it must be unify_bounds_maps(<the list of all collected bounds maps>): a dict merge keeps one bound per type variable and drops the others")
+    ok2 = False
+    if acc is not None:
+        pre = [c for c in calls_in(cc, "_check_param_type_compatibility") if c.lineno < rb[0].lineno]
+        for c in pre:
+            st = stmt_of(c)
+            first = norm(st.targets[0].elts[0]) if isinstance(st, ast.Assign) and isinstance(st.targets[0], ast.Tuple) else None
+            apps = [x for x in calls_in(cc, "append") if isinstance(x.func, ast.Attribute) and norm(x.func.value) == acc and x.args and norm(x.args[0]) == first]
+            ok2 = bool(apps) and all(all((norm(g) == f"{first} is None" and not pol) or (norm(g) == f"{first} is not None" and pol) or isinstance(parent(g), (ast.For, ast.While)) or norm(g) in ("self.all_typevars",) for g, pol in guards_of(a, cc) if "typevars" not in norm(g)) for a in apps)
+    chk.ob("R06.c", "signature::Signature.check_call_with_bound_args::all-bounds-accumulated", ok2, prog.site("signature", cc), "every non-None bounds map of the type-variable pre-pass must be appended to the unified list unconditionally")
+
+    chk.rule("R06.d", "the exemption for a parameter's own ill-typed default tests identity with param.default, not equality", floor=1)
+    pc = prog.func("signature", "Signature._check_param_type_compatibility")
+    cmps = [n for n in walk_no_nested(pc) if isinstance(n, ast.Compare) and any("param.default" == norm(x) for x in [n.left] + list(n.comparators))]
+    if not cmps:
+        raise AnchorError("_check_param_type_compatibility: no comparison with param.default")
+    for i, n in enumerate(cmps):
+        chk.ob(
+            "R06.d",
+            f"signature::Signature._check_param_type_compatibility::default-identity#{i + 1}",
+            all(isinstance(o, (ast.Is, ast.IsNot)) for o in n.ops),
+            prog.site("signature", n),
+            f"`{norm(n)}`: an explicitly passed argument that merely equals an ill-typed default would be exempted from the check",
+        )
+
+
 def run(prog: Program, chk: Check) -> None:
+    r06_cd(prog, chk)
     r06_a(prog, chk)
     r06_b(prog, chk)
